@@ -20,7 +20,7 @@ from cv.trace import validate_trace
 LEVEL = "model_checking"
 
 
-def build(rng, exports, system, nt, ntv, weak=False, soft=False):
+def build(rng, exports, system, nt, ntv, weak=False, soft=False, aniso=False):
     from cij.util import c_
     from cij.core.calculator import Calculator, CijVolumeBaseInterface
     while True:
@@ -43,7 +43,14 @@ def build(rng, exports, system, nt, ntv, weak=False, soft=False):
             base = {k: iso[k] for k in KEYS21}
             keys = list(ORTHO9)
             base[(5, 5)] = base[(1, 1)] * 10 ** rng.uniform(-6.0, -5.0)
-        comp = {k: base[k] * field * (1.0 + (0.0 if (weak or soft) else 0.01) * rng.normal(size=(nt, ntv))) for k in keys}
+        if aniso:
+            # positive definite but strongly anisotropic: an off-diagonal component larger than one of the diagonal ones it couples
+            # (c12 > c11 with c11 c22 > c12^2) - stable, although the cubic-crystal rules of thumb c_ii > |c_ij| fail
+            keys = list(ORTHO9)
+            u = rng.uniform(0.9, 1.1, 9)
+            vals = dict(zip(ORTHO9, (120 * u[0], 420 * u[1], 300 * u[2], 160 * u[3], 50 * u[4], 60 * u[5], 80 * u[6], 70 * u[7], 90 * u[8])))
+            base = {k: vals.get(k, 0.0) for k in KEYS21}
+        comp = {k: base[k] * field * (1.0 + (0.0 if (weak or soft or aniso) else 0.01) * rng.normal(size=(nt, ntv))) for k in keys}
         C = numpy.zeros((nt, ntv, 6, 6))
         for (i, j), a in comp.items():
             C[:, :, i - 1, j - 1] = a
@@ -207,8 +214,9 @@ def main(ctx, replay=None):
         for fi in range(nfields if stub_ok else 0):
             nt, ntv = int(rng.integers(2, 5)), int(rng.integers(3, 7))
             soft = bool(fi == 0 and system in ("orthorhombic", "monoclinic", "triclinic"))
+            aniso = bool(fi == 1 and system in ("orthorhombic", "monoclinic", "triclinic"))
             try:
-                stub, vb, C, pd, keys, v = build(rng, exports, system, nt, ntv, weak=(fi == nfields - 1 and system not in ("cubic", "orthorhombic")), soft=soft)
+                stub, vb, C, pd, keys, v = build(rng, exports, system, nt, ntv, weak=(fi == nfields - 1 and system not in ("cubic", "orthorhombic")), soft=soft, aniso=aniso)
             except StubUnavailable as ex:
                 stub_ok = False
                 ctx.cov["injected_field_path"] = f"unavailable: {ex}"
